@@ -41,6 +41,9 @@ class DirectFeaturesStrategy(AbstractFeatureDirectionStrategy):
             return False
         return len(self._c_shapes_dict[shape_label]) > 0
 
+    def features_dicts_of_shape(self, shape_label):
+        return [self._c_shapes_dict[shape_label]]
+
     def _set_annotation_methods(self):
         if self._examples_mode is None:
             self.annotate_triple_features = self._annotate_triple_features_no_examples
